@@ -111,6 +111,8 @@ Section LtyInd.
   Hypothesis Htup : forall ts, Forall P ts -> P (TTup ts).
   Hypothesis Hstr : forall c, P (TStr c).
   Hypothesis Htag : P TTag.
+  Hypothesis Henum : forall names, P (TEnum names).
+  Hypothesis Hstruct : forall fs, Forall (fun f => P (snd f)) fs -> P (TStruct fs).
   Fixpoint lty_ind' (t : lty) : P t :=
     match t with
     | TInt k => Hint k | TBool => Hbool | TUnit => Hunit
@@ -119,6 +121,9 @@ Section LtyInd.
     | TTup ts => Htup ts ((fix go (ts : list lty) : Forall P ts :=
                              match ts with [] => Forall_nil P | x :: r => Forall_cons x (lty_ind' x) (go r) end) ts)
     | TStr c => Hstr c | TTag => Htag
+    | TEnum names => Henum names
+    | TStruct fs => Hstruct fs ((fix go (fs : list (str * lty)) : Forall (fun f => P (snd f)) fs :=
+                                   match fs with [] => Forall_nil _ | f :: r => Forall_cons f (lty_ind' (snd f)) (go r) end) fs)
     end.
 End LtyInd.
 
@@ -179,14 +184,55 @@ Proof.
   destruct p; try lia. split; reflexivity.
 Qed.
 
+
+(* names of a serde enum resolve back to their index *)
+Lemma str_eqb_refl a : str_eqb a a = true.
+Proof. induction a as [|x a IH]; [reflexivity|]. cbn [str_eqb]. rewrite N.eqb_refl, IH. reflexivity. Qed.
+Lemma name_pos_nth : forall names j, uniq names = true -> (j < length names)%nat ->
+  name_pos (nth j names []) names = Some (N.of_nat j).
+Proof.
+  induction names as [|n0 r IH]; intros j Hu Hj; [inversion Hj|].
+  cbn [uniq] in Hu. apply andb_prop in Hu as [Hn Hu]. apply negb_true_iff in Hn.
+  destruct j as [|j]; cbn [nth name_pos].
+  - rewrite str_eqb_refl. reflexivity.
+  - assert (Hne : str_eqb n0 (nth j r []) = false).
+    { destruct (str_eqb n0 (nth j r [])) eqn:E; [|reflexivity]. exfalso.
+      assert (existsb (str_eqb n0) r = true); [|congruence].
+      apply existsb_exists. exists (nth j r []). split; [apply nth_In; cbn [length] in Hj; lia|exact E]. }
+    rewrite Hne, (IH j Hu ltac:(cbn [length] in Hj; lia)). cbn [option_map]. f_equal. lia.
+Qed.
+
 (* ---------------------------------------------------------------- JSON round trip *)
-Definition jenc_list : list lval -> bool -> bytes :=
+Definition jenc_arr_t (t' : lty) : list lval -> bool -> bytes :=
   fix go (l : list lval) (first : bool) : bytes :=
     match l with
     | [] => [93]
-    | x :: r => (if first then [] else [44]) ++ jenc x ++ go r false
+    | x :: r => (if first then [] else [44]) ++ jenc_t t' x ++ go r false
     end.
-Lemma jenc_arr l : jenc (LArr l) = 91 :: jenc_list l true.
+Lemma jenc_t_arr n t' l : jenc_t (TArr n t') (LArr l) = 91 :: jenc_arr_t t' l true.
+Proof. reflexivity. Qed.
+Lemma jenc_arr_t_cons t' x r first : jenc_arr_t t' (x :: r) first = (if first then [] else [44]) ++ jenc_t t' x ++ jenc_arr_t t' r false.
+Proof. reflexivity. Qed.
+Definition jenc_tup_t : list lty -> list lval -> bool -> bytes :=
+  fix go (ts : list lty) (l : list lval) (first : bool) : bytes :=
+    match ts, l with
+    | t' :: tr, x :: r => (if first then [] else [44]) ++ jenc_t t' x ++ go tr r false
+    | _, _ => [93]
+    end.
+Lemma jenc_t_tup ts l : jenc_t (TTup ts) (LArr l) = 91 :: jenc_tup_t ts l true.
+Proof. reflexivity. Qed.
+Lemma jenc_tup_t_cons t' tr x r first : jenc_tup_t (t' :: tr) (x :: r) first = (if first then [] else [44]) ++ jenc_t t' x ++ jenc_tup_t tr r false.
+Proof. reflexivity. Qed.
+Definition jenc_fields : list (str * lty) -> list lval -> bool -> bytes :=
+  fix go (fs : list (str * lty)) (l : list lval) (first : bool) : bytes :=
+    match fs, l with
+    | (nm, t') :: fr, x :: r => (if first then [] else [44]) ++ quoted nm ++ 58 :: jenc_t t' x ++ go fr r false
+    | _, _ => [125]
+    end.
+Lemma jenc_t_struct fs l : jenc_t (TStruct fs) (LArr l) = 123 :: jenc_fields fs l true.
+Proof. reflexivity. Qed.
+Lemma jenc_fields_cons nm t' fr x r first : jenc_fields ((nm, t') :: fr) (x :: r) first =
+  (if first then [] else [44]) ++ quoted nm ++ 58 :: jenc_t t' x ++ jenc_fields fr r false.
 Proof. reflexivity. Qed.
 
 Definition jdec_elems (t' : lty) : nat -> bool -> bytes -> option (list lval * bytes) :=
@@ -202,7 +248,13 @@ Definition jdec_elems (t' : lty) : nat -> bool -> bytes -> option (list lval * b
     end.
 Lemma jdec_arr n t' s1 : jdec (TArr n t') (91 :: s1) = wrap_arr (jdec_elems t' n true s1).
 Proof. reflexivity. Qed.
-
+Lemma jdec_elems_S t' m first s : jdec_elems t' (S m) first s =
+  match (if first then Some s else strip [44] s) with
+  | Some s' => match jdec t' s' with
+               | Some (x, r) => match jdec_elems t' m false r with Some (xs, r') => Some (x :: xs, r') | None => None end
+               | None => None end
+  | None => None end.
+Proof. reflexivity. Qed.
 Definition jdec_tup : list lty -> bool -> bytes -> option (list lval * bytes) :=
   fix elems (ts : list lty) (first : bool) (s : bytes) : option (list lval * bytes) :=
     match ts with
@@ -216,6 +268,37 @@ Definition jdec_tup : list lty -> bool -> bytes -> option (list lval * bytes) :=
     end.
 Lemma jdec_tuple ts s1 : jdec (TTup ts) (91 :: s1) = wrap_arr (jdec_tup ts true s1).
 Proof. reflexivity. Qed.
+Lemma jdec_tup_cons t' tr first s : jdec_tup (t' :: tr) first s =
+  match (if first then Some s else strip [44] s) with
+  | Some s' => match jdec t' s' with
+               | Some (x, r) => match jdec_tup tr false r with Some (xs, r') => Some (x :: xs, r') | None => None end
+               | None => None end
+  | None => None end.
+Proof. reflexivity. Qed.
+Definition jdec_fields : list (str * lty) -> bool -> bytes -> option (list lval * bytes) :=
+  fix fields (fs : list (str * lty)) (first : bool) (s : bytes) : option (list lval * bytes) :=
+    match fs with
+    | [] => match s with 125 :: r => Some ([], r) | _ => None end
+    | (nm, t') :: fr =>
+        match (if first then Some s else strip [44] s) with
+        | Some s' => match strip (quoted nm ++ [58]) s' with
+                     | Some s'' => match jdec t' s'' with
+                                   | Some (x, r) => match fields fr false r with Some (xs, r') => Some (x :: xs, r') | None => None end
+                                   | None => None end
+                     | None => None end
+        | None => None end
+    end.
+Lemma jdec_struct fs s1 : jdec (TStruct fs) (123 :: s1) = wrap_arr (jdec_fields fs true s1).
+Proof. reflexivity. Qed.
+Lemma jdec_fields_cons nm t' fr first s : jdec_fields ((nm, t') :: fr) first s =
+  match (if first then Some s else strip [44] s) with
+  | Some s' => match strip (quoted nm ++ [58]) s' with
+               | Some s'' => match jdec t' s'' with
+                             | Some (x, r) => match jdec_fields fr false r with Some (xs, r') => Some (x :: xs, r') | None => None end
+                             | None => None end
+               | None => None end
+  | None => None end.
+Proof. reflexivity. Qed.
 
 Definition has_tys : list lty -> list lval -> bool :=
   fix go (ts : list lty) (l : list lval) : bool :=
@@ -226,45 +309,34 @@ Definition has_tys : list lty -> list lval -> bool :=
     end.
 Lemma has_ty_tup ts l : has_ty (TTup ts) (LArr l) = has_tys ts l.
 Proof. reflexivity. Qed.
-
-Lemma jenc_list_cons x r first : jenc_list (x :: r) first = (if first then [] else [44]) ++ jenc x ++ jenc_list r false.
-Proof. reflexivity. Qed.
-Lemma jdec_elems_S t' m first s : jdec_elems t' (S m) first s =
-  match (if first then Some s else strip [44] s) with
-  | Some s' => match jdec t' s' with
-               | Some (x, r) => match jdec_elems t' m false r with Some (xs, r') => Some (x :: xs, r') | None => None end
-               | None => None end
-  | None => None end.
-Proof. reflexivity. Qed.
-Lemma jdec_tup_cons t' tr first s : jdec_tup (t' :: tr) first s =
-  match (if first then Some s else strip [44] s) with
-  | Some s' => match jdec t' s' with
-               | Some (x, r) => match jdec_tup tr false r with Some (xs, r') => Some (x :: xs, r') | None => None end
-               | None => None end
-  | None => None end.
-Proof. reflexivity. Qed.
 Lemma has_tys_cons t' tr x r : has_tys (t' :: tr) (x :: r) = has_ty t' x && has_tys tr r.
+Proof. reflexivity. Qed.
+Definition has_fields : list (str * lty) -> list lval -> bool :=
+  fix go (fs : list (str * lty)) (l : list lval) : bool :=
+    match fs, l with
+    | [], [] => true
+    | (nm, t') :: fr, x :: r => forallb plain_char nm && has_ty t' x && go fr r
+    | _, _ => false
+    end.
+Lemma has_ty_struct fs l : has_ty (TStruct fs) (LArr l) = has_fields fs l.
+Proof. reflexivity. Qed.
+Lemma has_fields_cons nm t' fr x r : has_fields ((nm, t') :: fr) (x :: r) = forallb plain_char nm && has_ty t' x && has_fields fr r.
 Proof. reflexivity. Qed.
 
 Lemma strip44 s : strip [44] (44 :: s) = Some s.
 Proof. reflexivity. Qed.
-
-Lemma jenc_list_head l first : exists c r, jenc_list l first = c :: r /\ isdig c = false \/
-                                            first = true /\ l <> [].
-Proof.
-  destruct l as [|x r]; [exists 93, []; left; split; reflexivity|].
-  destruct first; [exists 0, []; right; split; [reflexivity|discriminate]|].
-  eexists 44, _. left. split; reflexivity.
-Qed.
-
-Lemma ok_rest_list r rest : ok_rest (jenc_list r false ++ rest).
+Lemma ok_rest_arr t' r rest : ok_rest (jenc_arr_t t' r false ++ rest).
 Proof. destruct r as [|x r]; reflexivity. Qed.
+Lemma ok_rest_tup tr r rest : ok_rest (jenc_tup_t tr r false ++ rest).
+Proof. destruct tr as [|t0 tr], r as [|x r]; reflexivity. Qed.
+Lemma ok_rest_fields fr r rest : ok_rest (jenc_fields fr r false ++ rest).
+Proof. destruct fr as [|[nm t0] fr], r as [|x r]; reflexivity. Qed.
 
 (* a value of a non-null-like type never starts like "null" *)
-Lemma jenc_not_null t v rest : has_ty t v = true -> nullish t = false -> strip J_NULL (jenc v ++ rest) = None.
+Lemma jenc_not_null t v rest : has_ty t v = true -> nullish t = false -> strip J_NULL (jenc_t t v ++ rest) = None.
 Proof.
-  intros Hty Hn. destruct t as [k| | |t'|n t'|ts|cap|]; try discriminate Hn; destruct v as [z|b| |o|l|s|g]; try discriminate Hty.
-  - cbn [jenc]. unfold jenc_int, render_int. destruct z as [|p|p].
+  intros Hty Hn. destruct t as [k| | |t'|n t'|ts|cap| |names|fs]; try discriminate Hn; destruct v as [z|b| |o|l|s|g]; try discriminate Hty.
+  - cbn [jenc_t]. unfold jenc_int, render_int. destruct z as [|p|p].
     + reflexivity.
     + destruct (render_nat_head p) as (c & r & E & Hd). rewrite E. cbn [List.app].
       apply strip_head_ne. intros <-. discriminate Hd.
@@ -274,65 +346,89 @@ Proof.
   - reflexivity.
   - reflexivity.
   - reflexivity.
+  - reflexivity.
+  - reflexivity.
 Qed.
 
-Theorem jdec_roundtrip : forall t v rest, has_ty t v = true -> ok_rest rest -> jdec t (jenc v ++ rest) = Some (v, rest).
+Lemma quoted_app s rest : quoted s ++ rest = 34 :: (utf8 s ++ 34 :: rest).
+Proof. unfold quoted. rewrite <- List.app_comm_cons, <- List.app_assoc. reflexivity. Qed.
+Lemma quoted_body s rest : forallb plain_char s = true ->
+  str_body (S (length (utf8 s ++ 34 :: rest))) (utf8 s ++ 34 :: rest) = Some (s, rest).
+Proof. intros Hp. apply str_body_roundtrip; [exact Hp|]. rewrite List.app_length. cbn [length]. lia. Qed.
+
+Theorem jdec_roundtrip : forall t v rest, has_ty t v = true -> ok_rest rest -> jdec t (jenc_t t v ++ rest) = Some (v, rest).
 Proof.
-  induction t as [k| | |t' IH|n t' IH|ts IH|cap|] using lty_ind'; intros v rest Hty Hr.
-  - destruct v as [z|b| |o|l|s|g]; try discriminate Hty. cbn [jenc jdec]. unfold jenc_int.
+  induction t as [k| | |t' IH|n t' IH|ts IH|cap| |names|fs IH] using lty_ind'; intros v rest Hty Hr.
+  - destruct v as [z|b| |o|l|s|g]; try discriminate Hty. cbn [jenc_t jdec]. unfold jenc_int.
     rewrite (parse_render_int _ _ Hr). cbn [has_ty] in Hty. rewrite Hty. reflexivity.
   - destruct v as [z|b| |o|l|s|g]; try discriminate Hty. destruct b; reflexivity.
   - destruct v as [z|b| |o|l|s|g]; try discriminate Hty. reflexivity.
   - destruct v as [z|b| |o|l|s|g]; try discriminate Hty. destruct o as [x|].
     + cbn [has_ty] in Hty. apply andb_prop in Hty as [Hn Hx]. apply negb_true_iff in Hn.
-      cbn [jenc jdec]. rewrite (jenc_not_null _ _ _ Hx Hn), (IH _ _ Hx Hr). reflexivity.
+      cbn [jenc_t jdec]. rewrite (jenc_not_null _ _ _ Hx Hn), (IH _ _ Hx Hr). reflexivity.
     + reflexivity.
   - destruct v as [z|b| |o|l|s|g]; try discriminate Hty. cbn [has_ty] in Hty. apply andb_prop in Hty as [Hlen Hall].
-    apply Nat.eqb_eq in Hlen. subst n. rewrite jenc_arr. rewrite <- List.app_comm_cons, jdec_arr.
+    apply Nat.eqb_eq in Hlen. subst n. rewrite jenc_t_arr. rewrite <- List.app_comm_cons, jdec_arr.
     assert (G : forall l first, forallb (has_ty t') l = true ->
-                jdec_elems t' (length l) first (jenc_list l first ++ rest) = Some (l, rest)).
+                jdec_elems t' (length l) first (jenc_arr_t t' l first ++ rest) = Some (l, rest)).
     { clear l Hall. induction l as [|x r IHl]; intros first Hall; [reflexivity|].
       cbn [forallb] in Hall. apply andb_prop in Hall as [Hx Hrr].
-      cbn [length]. rewrite jdec_elems_S, jenc_list_cons.
+      cbn [length]. rewrite jdec_elems_S, jenc_arr_t_cons.
       destruct first; cbn [List.app]; rewrite ?strip44; rewrite <- List.app_assoc;
-        rewrite (IH _ _ Hx (ok_rest_list r rest)), (IHl false Hrr); reflexivity. }
+        rewrite (IH _ _ Hx (ok_rest_arr t' r rest)), (IHl false Hrr); reflexivity. }
     rewrite (G l true Hall). reflexivity.
   - destruct v as [z|b| |o|l|s|g]; try discriminate Hty. rewrite has_ty_tup in Hty.
-    rewrite jenc_arr. rewrite <- List.app_comm_cons, jdec_tuple.
+    rewrite jenc_t_tup. rewrite <- List.app_comm_cons, jdec_tuple.
     assert (G : forall l first, has_tys ts l = true ->
-                jdec_tup ts first (jenc_list l first ++ rest) = Some (l, rest)).
+                jdec_tup ts first (jenc_tup_t ts l first ++ rest) = Some (l, rest)).
     { clear l Hty. induction IH as [|t0 tr Ht0 _ IHts]; intros l first Hall.
       - destruct l; [reflexivity|discriminate].
       - destruct l as [|x r]; [discriminate|]. rewrite has_tys_cons in Hall. apply andb_prop in Hall as [Hx Hrr].
-        rewrite jdec_tup_cons, jenc_list_cons.
+        rewrite jdec_tup_cons, jenc_tup_t_cons.
         destruct first; cbn [List.app]; rewrite ?strip44; rewrite <- List.app_assoc;
-          rewrite (Ht0 _ _ Hx (ok_rest_list r rest)), (IHts r false Hrr); reflexivity. }
+          rewrite (Ht0 _ _ Hx (ok_rest_tup tr r rest)), (IHts r false Hrr); reflexivity. }
     rewrite (G l true Hty). reflexivity.
   - destruct v as [z|b| |o|l|s|g]; try discriminate Hty. cbn [has_ty] in Hty.
     apply andb_prop in Hty as [Hty Hcap']. apply andb_prop in Hty as [Hp Hcap].
-    cbn [jenc jdec]. rewrite <- List.app_comm_cons. rewrite <- List.app_assoc. cbn [List.app].
-    rewrite (str_body_roundtrip s _ rest Hp).
-    + rewrite Hcap. reflexivity.
-    + rewrite List.app_length. cbn [length]. lia.
+    cbn [jenc_t jdec]. rewrite quoted_app, (quoted_body s rest Hp). rewrite Hcap. reflexivity.
   - destruct v as [z|b| |o|l|s|g]; try discriminate Hty. cbn [has_ty] in Hty. apply N.ltb_lt in Hty.
     destruct (tag_names g Hty) as [Hp Ht].
-    cbn [jenc jdec]. rewrite <- List.app_comm_cons. rewrite <- List.app_assoc. cbn [List.app].
-    rewrite (str_body_roundtrip _ _ rest Hp).
-    + rewrite Ht. reflexivity.
-    + rewrite List.app_length. cbn [length]. lia.
+    cbn [jenc_t jdec]. rewrite quoted_app, (quoted_body _ rest Hp). rewrite Ht. reflexivity.
+  - destruct v as [z|b| |o|l|s|g]; try discriminate Hty. cbn [has_ty] in Hty.
+    apply andb_prop in Hty as [Hty H32]. apply andb_prop in Hty as [Hty Hu]. apply andb_prop in Hty as [Hlt Hpl]. apply Nat.ltb_lt in Hlt.
+    assert (Hp : forallb plain_char (nth (N.to_nat g) names []) = true).
+    { rewrite forallb_forall in Hpl. apply Hpl. apply nth_In. exact Hlt. }
+    cbn [jenc_t jdec]. rewrite quoted_app, (quoted_body _ rest Hp).
+    rewrite (name_pos_nth names _ Hu Hlt), N2Nat.id. reflexivity.
+  - destruct v as [z|b| |o|l|s|g]; try discriminate Hty. rewrite has_ty_struct in Hty.
+    rewrite jenc_t_struct. rewrite <- List.app_comm_cons, jdec_struct.
+    assert (G : forall l first, has_fields fs l = true ->
+                jdec_fields fs first (jenc_fields fs l first ++ rest) = Some (l, rest)).
+    { clear l Hty. induction IH as [|[nm t0] fr Ht0 _ IHfs]; intros l first Hall.
+      - destruct l; [reflexivity|discriminate].
+      - destruct l as [|x r]; [discriminate|]. rewrite has_fields_cons in Hall.
+        apply andb_prop in Hall as [Hall Hrr]. apply andb_prop in Hall as [Hnm Hx].
+        rewrite jdec_fields_cons, jenc_fields_cons. cbn [snd] in Ht0.
+        assert (E : forall tail, strip (quoted nm ++ [58]) (quoted nm ++ 58 :: tail) = Some tail).
+        { intros tail. change (quoted nm ++ 58 :: tail) with (quoted nm ++ [58] ++ tail). rewrite List.app_assoc. apply strip_app. }
+        destruct first; cbn [List.app]; rewrite ?strip44; rewrite <- !List.app_assoc; rewrite <- List.app_comm_cons, E;
+          rewrite <- List.app_assoc; rewrite (Ht0 _ _ Hx (ok_rest_fields fr r rest)), (IHfs r false Hrr); reflexivity. }
+    rewrite (G l true Hty). reflexivity.
 Qed.
 
 (* the helpers: set after get is accepted, consumes exactly the bytes produced, and decodes the value *)
-Theorem json_set_get t v cap b : has_ty t v = true -> json_get cap v = Some b ->
-  json_set t b = SetOk v (N.of_nat (length b)) /\ b = jenc v /\ N.of_nat (length b) <= cap.
+Theorem json_set_get t v cap b : has_ty t v = true -> json_get t cap v = Some b ->
+  json_set t b = SetOk v (N.of_nat (length b)) /\ b = jenc_t t v /\ N.of_nat (length b) <= cap.
 Proof.
-  intros Hty Hg. unfold json_get in Hg. destruct (N.of_nat (length (jenc v)) <=? cap) eqn:E; [|discriminate].
+  intros Hty Hg. unfold json_get in Hg. destruct (N.of_nat (length (jenc_t t v)) <=? cap) eqn:E; [|discriminate].
   injection Hg as <-. apply N.leb_le in E. split; [|split; [reflexivity|exact E]].
-  unfold json_set. rewrite <- (List.app_nil_r (jenc v)) at 1. rewrite (jdec_roundtrip _ _ [] Hty I). reflexivity.
+  unfold json_set. rewrite <- (List.app_nil_r (jenc_t t v)) at 1. rewrite (jdec_roundtrip _ _ [] Hty I). reflexivity.
 Qed.
 (* a buffer that is too small is an error, never a partial success *)
-Theorem json_get_small cap v : cap < N.of_nat (length (jenc v)) -> json_get cap v = None.
+Theorem json_get_small t cap v : cap < N.of_nat (length (jenc_t t v)) -> json_get t cap v = None.
 Proof. intros H. unfold json_get. apply N.leb_gt in H. rewrite H. reflexivity. Qed.
+
+(* on the types without serde structs / enums the type-directed encoder is the value-directed one of Codec-style [jenc] *)
 
 (* ---------------------------------------------------------------- postcard *)
 Lemma varint_roundtrip : forall fuel n rest, (0 < fuel)%nat -> n < 128 ^ N.of_nat fuel ->
@@ -511,9 +607,32 @@ Proof.
   rewrite Nat2N.id, take_bytes_app. rewrite (utf8_all_roundtrip s _ (forallb_plain_scalar _ Hp)) by lia. reflexivity.
 Qed.
 
+Definition pdec_fields : list (str * lty) -> bytes -> option (list lval * bytes) :=
+  fix fields (fs : list (str * lty)) (s : bytes) : option (list lval * bytes) :=
+    match fs with
+    | [] => Some ([], s)
+    | (_, t') :: fr => match pdec t' s with
+                       | Some (x, r) => match fields fr r with Some (xs, r') => Some (x :: xs, r') | None => None end
+                       | None => None end
+    end.
+Lemma pdec_struct fs s : pdec (TStruct fs) s = wrap_arr (pdec_fields fs s).
+Proof. reflexivity. Qed.
+Lemma pdec_fields_cons nm t' fr s : pdec_fields ((nm, t') :: fr) s =
+  match pdec t' s with
+  | Some (x, r) => match pdec_fields fr r with Some (xs, r') => Some (x :: xs, r') | None => None end
+  | None => None end.
+Proof. reflexivity. Qed.
+Definition penc_fields : list (str * lty) -> list lval -> bytes :=
+  fix go (fs : list (str * lty)) (l : list lval) : bytes :=
+    match fs, l with (_, t') :: fr, x :: r => penc t' x ++ go fr r | _, _ => [] end.
+Lemma penc_struct fs l : penc (TStruct fs) (LArr l) = penc_fields fs l.
+Proof. reflexivity. Qed.
+Lemma penc_fields_cons nm t' fr x r : penc_fields ((nm, t') :: fr) (x :: r) = penc t' x ++ penc_fields fr r.
+Proof. reflexivity. Qed.
+
 Theorem pdec_roundtrip : forall t v rest, has_ty t v = true -> pdec t (penc t v ++ rest) = Some (v, rest).
 Proof.
-  induction t as [k| | |t' IH|n t' IH|ts IH|cap|] using lty_ind'; intros v rest Hty.
+  induction t as [k| | |t' IH|n t' IH|ts IH|cap| |names|fs IH] using lty_ind'; intros v rest Hty.
   - destruct v as [z|b| |o|l|s|g]; try discriminate Hty. cbn [penc pdec]. cbn [has_ty] in Hty.
     rewrite (pdec_int_roundtrip _ _ _ Hty). reflexivity.
   - destruct v as [z|b| |o|l|s|g]; try discriminate Hty. destruct b; reflexivity.
@@ -555,6 +674,18 @@ Proof.
     destruct (take_bytes (N.to_nat n) r) as [[b rest']|]; [|discriminate].
     destruct (utf8_all (S (length b)) b) as [cs|]; [|discriminate].
     injection H as -> -> ->. rewrite Ht. reflexivity.
+  - destruct v as [z|b| |o|l|s|g]; try discriminate Hty. cbn [has_ty] in Hty.
+    apply andb_prop in Hty as [Hty H32]. apply andb_prop in Hty as [Hty _]. apply andb_prop in Hty as [Hlt _]. apply N.ltb_lt in H32.
+    cbn [penc pdec]. rewrite varint_roundtrip; [|lia|change (128 ^ N.of_nat 5) with 34359738368; lia].
+    rewrite Hlt. reflexivity.
+  - destruct v as [z|b| |o|l|s|g]; try discriminate Hty. rewrite has_ty_struct in Hty. rewrite penc_struct, pdec_struct.
+    assert (G : forall l, has_fields fs l = true -> pdec_fields fs (penc_fields fs l ++ rest) = Some (l, rest)).
+    { clear l Hty. induction IH as [|[nm t0] fr Ht0 _ IHfs]; intros l Hall.
+      - destruct l; [reflexivity|discriminate].
+      - destruct l as [|x r]; [discriminate|]. rewrite has_fields_cons in Hall.
+        apply andb_prop in Hall as [Hall Hrr]. apply andb_prop in Hall as [_ Hx]. cbn [snd] in Ht0.
+        rewrite pdec_fields_cons, penc_fields_cons, <- List.app_assoc, (Ht0 _ _ Hx), (IHfs r Hrr). reflexivity. }
+    rewrite (G l Hty). reflexivity.
 Qed.
 
 Theorem postcard_set_get t v cap b rest : has_ty t v = true -> postcard_get t cap v = Some b ->
@@ -571,7 +702,7 @@ Proof. intros H. unfold postcard_get. apply N.leb_gt in H. rewrite H. reflexivit
 Example ser_examples :
   let t := TTup [TInt I16; TOpt (TInt U8); TArr 2 TBool; TStr 8; TTag; TUnit] in
   let v := LArr [LInt (-300); LOpt (Some (LInt 7)); LArr [LBool true; LBool false]; LStr [104; 233]; LTag 1; LUnit] in
-  has_ty t v = true /\ jenc v = [91; 45; 51; 48; 48; 44; 55; 44; 91; 116; 114; 117; 101; 44; 102; 97; 108; 115; 101; 93; 44; 34; 104; 195; 169; 34; 44; 34; 66; 98; 34; 44; 110; 117; 108; 108; 93] /\
-  json_set t (jenc v) = SetOk v 37 /\
+  has_ty t v = true /\ jenc_t t v = [91; 45; 51; 48; 48; 44; 55; 44; 91; 116; 114; 117; 101; 44; 102; 97; 108; 115; 101; 93; 44; 34; 104; 195; 169; 34; 44; 34; 66; 98; 34; 44; 110; 117; 108; 108; 93] /\
+  json_set t (jenc_t t v) = SetOk v 37 /\
   penc t v = [215; 4; 1; 7; 1; 0; 3; 104; 195; 169; 2; 66; 98] /\ postcard_set t (penc t v ++ [9]) = Some (v, [9]).
 Proof. vm_compute. repeat split; reflexivity. Qed.
